@@ -98,8 +98,11 @@ def t_header_case(wb, rng):
         return None
     i = rng.choice(idxs)
     base, d, rest = _split(s["hdrs"][i])
-    style = rng.randrange(4)
-    nb = [base.upper(), base.title(), "  " + base + " ", base.replace("_", " ") if base not in ("big-image",) else base][style]
+    style = rng.randrange(7)
+    spaced = base not in ("big-image",) and "_" in base
+    nb = [base.upper(), base.title(), "  " + base + " ", base.replace("_", " ") if spaced else base,
+          # the words of a header separated by something other than one plain blank: still the same header
+          base.replace("_", "  ") if spaced else base.upper(), base.replace("_", "\t") if spaced else base.title(), base.replace("_", "\u00a0") if spaced else base][style]
     if key == "choices" and base == "list_name" and style == 3:
         nb = "list name"
     s["hdrs"][i] = nb if d is None else f"{nb}{d}{rest}"
